@@ -169,7 +169,8 @@ class Gen:
                 ops.append(["cleanup", self.body(depth + 1, groups), rng.randint(0, 3),
                             "boom" if rng.random() < 0.3 else "reraise"])  # fmt: skip
             elif k == "catch_then":
-                ops.append(["catch_then", self.body(depth + 1, groups), self.body(depth + 1, groups)])
+                ops.append(["catch_then", self.body(depth + 1, groups), self.body(depth + 1, groups)]
+                           + (["fresh"] if rng.random() < 0.3 else []))  # fmt: skip
             elif k == "tscope":
                 self.nscope += 1
                 helper = rng.choice(["move_on_after", "move_on_at", "fail_after", "fail_at"])
@@ -264,7 +265,7 @@ def timer_free(ops: list) -> list:
         elif k == "cleanup":
             out.append(["cleanup", timer_free(op[1]), op[2], op[3]])
         elif k == "catch_then":
-            out.append(["catch_then", timer_free(op[1]), timer_free(op[2])])
+            out.append(["catch_then", timer_free(op[1]), timer_free(op[2]), *op[3:]])
         elif k == "catch_mix":
             out.append(["catch_mix", timer_free(op[1]), op[2]])
         else:
